@@ -8,7 +8,8 @@ def run(ctx):
     # quick: every single deviation (one symbolic token at each of three positions; each mandatory token missing) and a two-element group
     for pres in (1, 2, 4): T(ctx, 'C04_tok_x%d' % pres, pres=pres, defs=defs)
     for drop in range(1, 7): T(ctx, 'C04_drop%d' % drop, pres=0, drop=drop, defs=defs)
-    T(ctx, 'C04_group2', pres=0, ng=2, gpres=3, defs=defs)
+    T(ctx, 'C04_group2', pres=0, ng=2, gpres=3, defs=defs, extra_defs=['GMENUMASK=0x1804'])     # group slots: 372, 385, 141
+    T(ctx, 'C04_group2_full', pres=0, ng=2, gpres=3, defs=defs, tier='thorough', timeout=2400)
     # thorough: pairs and triples of symbolic tokens, a dropped mandatory token next to a symbolic one, three group tokens, and the real byte tokenizer
     for pres in (3, 5, 6): T(ctx, 'C04_tok_x%d' % pres, pres=pres, defs=defs, tier='thorough', timeout=2400)
     for drop in (1, 4, 5): T(ctx, 'C04_tok_x2_drop%d' % drop, pres=2, drop=drop, defs=defs, tier='thorough', timeout=1200)
